@@ -133,3 +133,16 @@ add("C12", "exploration", ["dbh"], dbh("c12", ["--random-cases", "200"], ["--ran
     "NaN payloads, vectors of length 0..5) enumerated completely plus random values, each as key and as value, on four variants, read back live, "
     "after reopen and after backup->DbMemory; equality is bitwise.",
     "NaN used as a key is looked up by listing (select all / keys); a failing select-by-key for a NaN key is counted, not judged.", "DESIGN.md §6 C12")
+
+add("C20", "exploration", ["dbh"], dbh("c20", ["--n", "600"], ["--n", "12000"]),
+    "round-trip / size oracle over generated values of every serializable type incl. a derived-type corpus",
+    "Generated values of every built-in AgdbSerialize implementation, every query struct (through QueryType) and a corpus of derived user types: "
+    "deserialize(serialize(x)) == x, byte-identical re-serialization, serialized_size == produced length.",
+    "PathBuf values are UTF-8 (lossy conversion of non-UTF-8 paths is outside the statement); Option<T> has no implementation and is not covered.",
+    "DESIGN.md §6 C20")
+add("C21", "exploration", ["dbh"], dbh("c21", ["--n", "640"], ["--n", "12000", "--inputs", "300"]),
+    "panic monitor + allocation-cap allocator over mutated and random inputs to every deserializer",
+    "51 deserializers (built-in, query structs, derived types, typed conversions of byte-array values) fed random bytes, structure-aware mutations of "
+    "valid encodings and length-prefix extremes in worker processes: no panic, no abort, no single allocation request above 64 MiB (inputs < 1 KiB; the "
+    "largest legitimate request is reported).",
+    "Dev profile (overflow checks and debug assertions on), which is what cargo build/test use; release is not run here.", "DESIGN.md §6 C21")
